@@ -24,6 +24,14 @@ m=mesh("triangle"); V=space(m,"P",2); f=Coefficient(V)
 P=np.array([[0.25,0.25],[0.5,0.125]])%s
 objs=[(grad(f), P)]
 '''
+EXPR_VAR = '''
+m=mesh("triangle"); V=space(m,"P",1); u=Coefficient(V); g=Coefficient(V); h=Coefficient(V); uv=ufl.variable(u)
+objs=[(ufl.diff(uv*uv*g + h, uv) + h, np.array([[0.25,0.25],[0.5,0.125]]))]
+'''
+FORM_VAR = '''
+m=mesh("triangle"); V=space(m,"P",1); u=Coefficient(V); v=TestFunction(V); uv=ufl.variable(u)
+objs=[ufl.diff(uv*uv*uv, uv)*v*dx]
+'''
 BIG = '''
 m=mesh("triangle"); V=space(m,"P",1); f=Coefficient(V)
 P=np.column_stack([np.linspace(0.01,0.49,700), np.linspace(0.01,0.49,700)])%s
@@ -126,6 +134,8 @@ def run(v, tier, seed, g):
     hists = ["none", "objects", "compile_other"]
     # ---- stability across hash seeds and process histories ------------------------------------------
     base = [dict(c, object_names=True) for c in BASE]
+    # an expression / a form with ufl.variable (labels are counted objects too: their counts must not enter the names)
+    base += [{"id": "expr_with_variable", "code": EXPR_VAR, "object_names": True}, {"id": "form_with_variable", "code": FORM_VAR, "object_names": True}]
     # requests with several compiler flags (names must not depend on how a collection of flags is ordered/printed)
     manyflags = ["-O2", "-g0", "-Wall", "-fno-math-errno", "-DVF_A=1", "-DVF_B=2"]
     base += [dict(c, id=c["id"] + "+flags", cffi_args=manyflags) for c in BASE[:3]]
